@@ -54,7 +54,7 @@ def run_check(prop, tier, seed, jobs=None):
     from . import evidence
     t0 = time.time()
     import glob
-    for f in glob.glob(os.path.join(VERIF, "replay", prop + "-*.json")):
+    for f in glob.glob(os.path.join(os.environ.get("VF_REPLAY_DIR") or os.path.join(VERIF, "replay"), prop + "-*.json")):
         os.unlink(f)
     L = importlib.import_module("lemmas." + prop)
     cfgs = list(L.configs(tier))
@@ -146,7 +146,7 @@ def run_check(prop, tier, seed, jobs=None):
         return 3
     if reported:
         for o, path, tail in reported:
-            print("VIOLATION property=%s replay=%s obligation=%s%s" % (prop, os.path.relpath(path, VERIF), o["name"].replace(" ", "_"), tail))
+            print("VIOLATION property=%s replay=%s obligation=%s%s" % (prop, (os.path.relpath(path, VERIF) if path.startswith(VERIF) else path), o["name"].replace(" ", "_"), tail))
         return 1
     if und or dead or not obls:
         for o in und[:10]:
